@@ -227,7 +227,28 @@ def run(ctx):
         pvlib.report_violation(ctx, "dedupe-longline", {"argv": ["dedupe"], "generator": "3,000,000-byte line, 'short', the same line, 'short' (pipe)", "status": st,
                                "output_bytes": len(out), "first_diff_byte": k},
                                summary=f"dedupe on a 3,000,000-byte line given twice (pipe): output has {len(out)} bytes, expected {len(bigl) + 7}; first difference at byte {k} (status {st})")
-    # parallel mode
+    # long lines FOLLOWING short ones (the long line does not start at the front of the read buffer when the buffer fills up), pipe and gzip
+    for pre, ln in (([b"x"], 1202672), ([b"k%d" % i for i in range(300)], 700000), ([b"y" * 500000], 600000)):
+        longl = bytes(97 + (i * 5 + i // 4099) % 26 for i in range(ln))
+        ls = pre + [longl, b"x", longl, pre[0]]
+        data = b"".join(l + b"\n" for l in ls)
+        want = b"".join(l + b"\n" for l in dict.fromkeys(ls))
+        for back in ("pipe", "gz"):
+            if back == "pipe":
+                st, out, err = pvlib.run_tool([ctx.bin("dedupe")], data, env=pvlib.san_env(), timeout=300)
+            else:
+                f = os.path.join(ctx.tmp, "longline.gz")
+                open(f, "wb").write(gzip.compress(data, 1))
+                st, out, err = pvlib.run_tool([ctx.bin("dedupe")], env=pvlib.san_env(), stdin_file=f, timeout=300)
+            ctx.count("dedupe.long-after-short", 1, [(len(pre), ln, back)])
+            if st != 0 or out != want:
+                ol = out.split(b"\n")[:-1]
+                pvlib.report_violation(ctx, f"dedupe-long-after-short:{len(pre)}:{ln}:{back}", {"argv": ["dedupe"], "backing": back, "status": st,
+                                       "generator": f"{len(pre)} line(s) of {len(pre[0])} bytes, a {ln}-byte line (bytes 97 + (i*5 + i//4099) % 26), 'x', the long line again, the first line again",
+                                       "lines_out": len(ol), "distinct_lines_in": len(dict.fromkeys(ls)), "line_lengths_out": [len(x) for x in ol[:8]]},
+                                       summary=f"dedupe ({back}) on {len(pre)} short line(s) followed by a {ln}-byte line given twice: {len(ol)} lines out with lengths "
+                                               f"{[len(x) for x in ol[:6]]}, expected the {len(dict.fromkeys(ls))} distinct lines (status {st})")
+                break
     corr_break = None
     for _ in range(40 if ctx.tier == "quick" else 400):
         k = rng.randrange(0, 12)
